@@ -1212,6 +1212,21 @@ def r165(ctx, repo):
     ctx.ob("R16.5", ok, "request size and invalid-handling are forwarded"
            if ok else "samples / remove_invalid are not forwarded unchanged",
            node=c, label="scatter forwards request")
+    # every normal path to a return runs the sampler (no short-cut that
+    # skips the request size / invalid handling)
+    cfg = CFG(f)
+    ids = set(cfg.ids_of(st))
+    if not ids:
+        raise AnalysisError("get_downsampled_scatter: sampler call not in "
+                            "the CFG")
+    ok = cfg.must_pass(lambda n_: n_.id in ids,
+                       avoid_edge=lambda a_, lab, b_: lab == "x")
+    ctx.ob("R16.5", ok,
+           "every path to a return passes the downsample_grid call" if ok
+           else "a path reaches the return without calling downsample_grid: "
+           "the request size / remove_invalid handling of the sampler is "
+           "bypassed (e.g. invalid events are returned although "
+           "remove_invalid=True)", node=c, label="scatter always samples")
     # returns
     rets = returns_of(f)
     if not rets:
@@ -1247,6 +1262,20 @@ def r165(ctx, repo):
                     mk = d.value.id
                     continue
                 break
+            binds = assigns(f, mk)
+            alias = [b for b in binds if not (isinstance(b, ast.Assign)
+                                              and isinstance(b.value,
+                                                             ast.Call))]
+            ctx.ob("R16.5", not alias,
+                   "the dataset-level mask is a newly allocated array on "
+                   "every path" if not alias else
+                   f"`{short(alias[0], 40)}`: on this path the mask handed "
+                   "out is not a new array (it aliases the sampler's result, "
+                   "which the sampler caches: a caller that edits the mask "
+                   "corrupts later calls)", node=alias[0] if alias else r,
+                   label="scatter mask fresh")
+            if alias:
+                continue
             z = [s for s in walk(f) if isinstance(s, ast.Assign)
                  and txt(s.targets[0]) == mk and isinstance(
                      s.value, ast.Call)]
@@ -1318,6 +1347,102 @@ def r165(ctx, repo):
            nontrivial=False)
 
 
+FILT = "dclab/rtdc_dataset/filter.py"
+
+
+def _self_store_attrs(node):
+    """attributes of self that the statements store into"""
+    out = []
+    for n in walk(node):
+        tg = []
+        if isinstance(n, ast.Assign):
+            tg = n.targets
+        elif isinstance(n, (ast.AugAssign, ast.AnnAssign)):
+            tg = [n.target]
+        elif isinstance(n, ast.Delete):
+            tg = n.targets
+        for t in tg:
+            for x in (t.elts if isinstance(t, (ast.Tuple, ast.List))
+                      else [t]):
+                b = x
+                while isinstance(b, ast.Subscript):
+                    b = b.value
+                if isinstance(b, ast.Attribute) and isinstance(
+                        b.value, ast.Name) and b.value.id == "self":
+                    out.append((b.attr, n))
+        if isinstance(n, ast.Call) and isinstance(n.func, ast.Attribute) \
+                and n.func.attr in ("update", "append", "pop", "clear",
+                                    "setdefault", "add", "extend", "remove",
+                                    "insert") and isinstance(
+                n.func.value, ast.Attribute) and isinstance(
+                n.func.value.value, ast.Name) \
+                and n.func.value.value.id == "self":
+            out.append((n.func.value.attr, n))
+    return out
+
+
+def r166(ctx, repo):
+    """the event limit is drawn from the current selection on every update:
+    the limit block keeps nothing on the Filter instance that an update
+    reads"""
+    upd = inline_helpers(repo, FILT, repo.func(FILT, "Filter.update"),
+                         keep=("_init_rtdc_ds", "_get_rw_array"))
+    calls = find_calls(upd, attr="downsample_rand")
+    if len(calls) != 1:
+        raise AnalysisError("Filter.update: event-limit draw lost")
+    c = calls[0]
+    block = None
+    n = c
+    while n is not upd:
+        par = n.parent
+        if isinstance(par, ast.If) and "limit events" in expand(
+                upd, par.test) and any(n is s_ for s_ in par.body):
+            block = par
+        n = par
+    if block is None:
+        raise AnalysisError("Filter.update: `limit events` block around the "
+                            "draw not found")
+    body = ast.Module(body=block.body, type_ignores=[])
+    stores = _self_store_attrs(body)
+    cls = upd.parent
+    readers = {}
+    for a, _n in stores:
+        for nn in walk(upd):
+            if isinstance(nn, ast.Attribute) and nn.attr == a and isinstance(
+                    nn.value, ast.Name) and nn.value.id == "self" \
+                    and isinstance(nn.ctx, ast.Load):
+                readers.setdefault(a, nn)
+    del cls
+    bad = [(a, n_) for a, n_ in stores if a in readers]
+    ctx.ob("R16.6", not bad,
+           "the event-limit block stores nothing on the Filter instance "
+           "that update() reads: the selection is drawn from the current "
+           "eligible events on every update" if not bad else
+           f"the event-limit block stores `self.{bad[0][0]}` "
+           f"(`{short(bad[0][1], 40)}`) and update() reads it "
+           f"(`{short(stmt_of(readers[bad[0][0]]), 40)}`): the limited "
+           "selection depends on earlier updates – a changed eligible set "
+           "does not get its own draw", node=bad[0][1] if bad else block,
+           label="limit block stateless")
+    # the draw is not skipped depending on instance state
+    cond = None
+    n = c
+    while n is not block:
+        par = n.parent
+        if isinstance(par, ast.If) and par is not block and any(
+                isinstance(x, ast.Attribute) and isinstance(
+                    x.value, ast.Name) and x.value.id == "self"
+                for x in ast.walk(par.test)):
+            cond = par
+        n = par
+    ctx.ob("R16.6", cond is None,
+           "the draw inside the limit block does not depend on instance "
+           "state" if cond is None else
+           f"the draw is skipped depending on `{short(cond.test, 40)}` "
+           "(state of the Filter instance)", node=cond or c,
+           label="limit draw unconditional")
+
+
 def run(ctx):
     repo = ctx.repo
     ctx.rule("R16.1", "every random draw follows a reset of the state to a "
@@ -1331,13 +1456,17 @@ def run(ctx):
     ctx.rule("R16.4", "division by the data range is guarded against zero",
              minimum=1)
     ctx.rule("R16.5", "get_downsampled_scatter: same selection for data "
-             "and mask write-back, unscaled data under the sampler's mask",
-             minimum=8)
+             "and mask write-back, unscaled data under the sampler's mask; "
+             "every path samples; the mask is a new array", minimum=10)
+    ctx.rule("R16.6", "the event-limit block of Filter.update keeps no "
+             "state on the instance that a later update reads; the draw does "
+             "not depend on instance state", minimum=2)
     r161(ctx, repo)
     r162(ctx, repo)
     r163(ctx, repo)
     r164(ctx, repo)
     r165(ctx, repo)
+    r166(ctx, repo)
 
 
 MUTANTS = [
